@@ -494,3 +494,35 @@ M2('c16-chars-match-local-tested-inverted', 'C16', 'R11',
 # k2-c16-3 reads the unit as the slice `value[: value.index('=')]` (first '='): the same slice up to the LAST '=' is the s9 mistake again
 M('c16-k2-range-unit-slice-before-last-separator', 'C16', 'R13', REQ, _UNIT,
   "        if value and '=' in value:\n            return value[: value.rindex('=')]\n")
+
+# ---- wave 11
+# R3 exact cells: only the parser's marker -1 means "no last-byte-pos"; last-byte-pos 0 (`bytes=0-0`) is a bounded range (s11-c16-2)
+_TAIL = """    fh.seek(start)
+    if end == -1:
+        # NOTE(vytas): Wrap in order to prevent sendfile from being used, as
+        #   its implementation was found to be buggy in many popular WSGI
+        #   servers for open files with a non-zero offset.
+        length = size - start
+        return _BoundedFile(fh, length), length, (start, size - 1, size)
+
+    end = min(end, size - 1)
+    length = end - start + 1
+    return _BoundedFile(fh, length), length, (start, end, size)
+"""
+_MERGED = """    fh.seek(start)
+    last = size - 1
+    end = %s
+    length = end - start + 1
+    return _BoundedFile(fh, length), length, (start, end, size)
+"""
+M('c16-merged-tail-open-end-test-gt0', 'C16', 'R3', ST, _TAIL, _MERGED % 'min(end, last) if end > 0 else last')
+M('c16-merged-tail-open-end-test-truthy', 'C16', 'R3', ST, _TAIL, _MERGED % 'min(end, last) if end else last')
+M('c16-merged-tail-open-end-test-le0', 'C16', 'R3', ST, _TAIL, _MERGED % 'last if end <= 0 else min(end, last)')
+M('c16-open-end-branch-taken-for-zero', 'C16', 'R3', ST, "    fh.seek(start)\n    if end == -1:\n", "    fh.seek(start)\n    if end < 1:\n")
+M('c16-bounded-branch-only-strictly-inside', 'C16', 'R3', ST, _TAIL, """    fh.seek(start)
+    if 0 < end < size - 1:
+        length = end - start + 1
+        return _BoundedFile(fh, length), length, (start, end, size)
+    length = size - start
+    return _BoundedFile(fh, length), length, (start, size - 1, size)
+""")
